@@ -7,6 +7,7 @@ import (
 	"github.com/gotid/god/lib/threading"
 	"github.com/gotid/god/lib/timex"
 	"reflect"
+	"runtime"
 	"sync"
 	"sync/atomic"
 	"time"
@@ -88,10 +89,19 @@ func (pe *PeriodicalExecutor) Sync(fn func()) {
 
 // Wait 等待执行完成。
 func (pe *PeriodicalExecutor) Wait() {
-	pe.Flush()
-	pe.wgBarrier.Guard(func() {
-		pe.waitGroup.Wait()
-	})
+	for {
+		pe.Flush()
+		// 被 Add 取走、但后台协程尚未接收的批次还没有计入 waitGroup，
+		// 需要等后台协程接收（enterExecution）之后再等一轮。
+		handingOver := atomic.LoadInt32(&pe.inflight) > 0
+		pe.wgBarrier.Guard(func() {
+			pe.waitGroup.Wait()
+		})
+		if !handingOver {
+			return
+		}
+		runtime.Gosched()
+	}
 }
 
 func (pe *PeriodicalExecutor) enterExecution() {
@@ -162,8 +172,9 @@ func (pe *PeriodicalExecutor) backgroundFlush() {
 			select {
 			case tasks := <-pe.commander:
 				commanded = true
-				atomic.AddInt32(&pe.inflight, -1)
+				// 先计入 waitGroup 再减 inflight，Wait 据此不会漏掉交接中的批次
 				pe.enterExecution()
+				atomic.AddInt32(&pe.inflight, -1)
 				pe.confirmChan <- lang.Placeholder
 				pe.executeTasks(tasks)
 				last = timex.Now()
